@@ -235,44 +235,91 @@ func runC12(r *Run) {
 			}
 		}
 		// the other way out of the loop: it ends successfully only when the announced number of messages was decoded —
-		// with the exit edge of `i < size` removed, nothing after the loop is reachable from a decoded message
-		var size ssa.Value
-		for _, c := range callsMatching(f, false, func(n string) bool { return strings.HasSuffix(n, "msgp.ReadArrayHeaderBytes") }) {
-			for _, ref := range *c.Value().Referrers() {
-				if ex, ok := ref.(*ssa.Extract); ok && ex.Index == 0 {
-					size = ex
+		// the loop (in this function or a helper it calls) is left either through `i < size` turning false or on the
+		// error path of a failed decode, nowhere else
+		type loopInfo struct {
+			g      *ssa.Function
+			header *ssa.BasicBlock
+			exit   edge
+		}
+		var loops []loopInfo
+		for _, g := range append([]*ssa.Function{f}, helpersOf(f)...) {
+			var size ssa.Value
+			for _, c := range callsMatching(g, false, func(n string) bool { return strings.HasSuffix(n, "msgp.ReadArrayHeaderBytes") }) {
+				if c.Fn != g {
+					continue
+				}
+				for _, ref := range *c.Value().Referrers() {
+					if ex, ok := ref.(*ssa.Extract); ok && ex.Index == 0 {
+						size = ex
+					}
+				}
+			}
+			if size == nil {
+				continue
+			}
+			for _, br := range branchesInOne(g) {
+				if br.Info.Other == nil {
+					continue
+				}
+				switch {
+				case br.Info.Op == token.LSS && stripValue(br.Info.Other) == size, br.Info.Op == token.GTR && stripValue(br.Info.Root) == size:
+					loops = append(loops, loopInfo{g, br.If.Block(), edge{br.If.Block(), br.slotWhenRel(false)}})
+				case br.Info.Op == token.GEQ && stripValue(br.Info.Other) == size, br.Info.Op == token.LEQ && stripValue(br.Info.Root) == size:
+					loops = append(loops, loopInfo{g, br.If.Block(), edge{br.If.Block(), br.slotWhenRel(true)}})
 				}
 			}
 		}
-		r.need(size != nil, "the message count comes from msgp.ReadArrayHeaderBytes")
-		exit := map[edge]bool{}
-		for _, br := range branchesIn(f) {
-			if br.Info.Other == nil {
-				continue
+		r.need(len(loops) >= 1, "the decode loop runs while i < size (size from msgp.ReadArrayHeaderBytes)")
+		early := ""
+		for _, lp := range loops {
+			fromH := blocksReachable(lp.header, nil, nil)
+			inLoop := map[*ssa.BasicBlock]bool{}
+			for b := range fromH {
+				for _, su := range b.Succs {
+					if blocksReachable(su, nil, nil)[lp.header] {
+						inLoop[b] = true
+					}
+				}
 			}
-			switch {
-			case br.Info.Op == token.LSS && stripValue(br.Info.Other) == size, br.Info.Op == token.GTR && stripValue(br.Info.Root) == size:
-				exit[edge{br.If.Block(), br.slotWhenRel(false)}] = true
-			case br.Info.Op == token.GEQ && stripValue(br.Info.Other) == size, br.Info.Op == token.LEQ && stripValue(br.Info.Root) == size:
-				exit[edge{br.If.Block(), br.slotWhenRel(true)}] = true
+			if !inLoop[lp.header] {
+				continue // a comparison with the announced count that is not a loop condition (the size pre-check)
+			}
+			// error edges of the per-message decode
+			var errTargets []*ssa.BasicBlock
+			errEdge := map[edge]bool{}
+			for _, br := range branchesInOne(lp.g) {
+				if !inLoop[br.If.Block()] || !constIsNil(br.Info.Const) || br.Info.Root.Type().String() != "error" {
+					continue
+				}
+				if sl, ok := br.nilSlot(false); ok {
+					errEdge[edge{br.If.Block(), sl}] = true
+					errTargets = append(errTargets, br.If.Block().Succs[sl])
+				}
+			}
+			for b := range inLoop {
+				for sl, su := range b.Succs {
+					if inLoop[su] {
+						continue
+					}
+					e := edge{b, sl}
+					if e == lp.exit || errEdge[e] {
+						continue
+					}
+					onErr := false
+					for _, t := range errTargets {
+						if len(t.Preds) == 1 && dom(t, b) {
+							onErr = true
+						}
+					}
+					if !onErr {
+						early = r.P.Pos(b.Instrs[len(b.Instrs)-1].Pos())
+					}
+				}
 			}
 		}
-		r.need(len(exit) >= 1, "the decode loop runs while i < size")
-		isAfterLoop := func(in ssa.Instruction) bool {
-			if isCallTo(in, func(n string) bool { return strings.HasSuffix(n, "Ctx).Cookie") }) {
-				return true
-			}
-			_, ok := in.(*ssa.Return)
-			return ok && in.Parent() == f
-		}
-		short := ""
-		for _, in := range instrsWhere(f, isDirtying) {
-			if path, hit := reach(pointAfter(in), isAfterLoop, exit, isEmptying); hit != nil {
-				short = pathString(r.P, path)
-			}
-		}
-		r.check(short == "", "parseAndClearFlashMessages:all-announced-messages-or-none", r.fpos(f), "after a message was decoded the function is left only through `i < size` turning false or with the messages emptied",
-			"the decode loop can end before the announced number of messages was read and keep what it has: a cookie cut at a message boundary (or announcing more than it holds) delivers its first messages and is expired as if it were complete: "+short)
+		r.check(early == "", "parseAndClearFlashMessages:all-announced-messages-or-none", r.fpos(f), "the decode loop is left only through `i < size` turning false or on a decode error",
+			"the decode loop can end before the announced number of messages was read and keep what it has (exit at "+early+"): a cookie cut at a message boundary (or announcing more than it holds) delivers its first messages and is expired as if it were complete")
 		r.check(bad == "", "parseAndClearFlashMessages:error⇒empty", r.fpos(f), "whenever a decode error edge is taken after the messages were touched, they are emptied before return",
 			"a decode error returns with the partially decoded messages still in place ("+bad+"): a truncated or hostile cookie yields messages")
 	})
